@@ -25,7 +25,12 @@ the statements; "TIC = Σ retained intensities" is `tic out`, the left-to-right 
 Where things are:
 * `heapify_topk`, `heapify_perm`, `heapify_noop` — `bounded_min_heapify`
 * `process_sorted`, `process_panics_iff`, `process_nodeiso`, `process_ms1`, `process_deiso` — `SpectrumProcessor::process`
-* `deisotope_shape`, `envelope_lighter`, `charge_witness`, `protected_region` — `deisotope`
+* `deisotope_shape`, `envelope_lighter`, `charge_witness`, `envelope_witness`, `protected_region`, `witness_iff`,
+  `retained_intensity` — `deisotope`
+* `process_derived_plain`, `retained_not_in_envelope`, `process_retained_intensity` — masses / sources / intensities of
+  the output peaks of `process`
+* `model_meets_spec_process`, `model_meets_spec_deisotope` — the executable checkers the driver applies to the
+  implementation accept the model's output on every input
 -/
 
 namespace Sage.C10
@@ -1126,4 +1131,726 @@ example : (deisotope inpZ 2 10 100006)[1]? = some ⟨100000, 100, none, none⟩ 
 example : (deisotope inpZ 2 10 100006)[3]? = some ⟨100010, 95, some 1, none⟩ := by decide +kernel
 
 end deisotope
+
+section derived
+variable {α : Type} [LinearOrder α] [Num α] [LawfulNum α]
+
+/-- **C10.process_derived_plain** — MS1/MS3, and MS2 without deisotoping: every output peak is an input peak `(mz, int)`
+    converted as `mass = (mz − PROTON)·1`, intensity unchanged ("derived from an input peak as (m/z − proton) × charge",
+    charge 1). -/
+theorem process_derived_plain (cfg : Cfg α) (r : Raw α) (out : List (Peak α)) (t : α)
+    (h : process cfg r = some (out, t)) (hplain : ¬(r.level = 2 ∧ cfg.deisotope = true)) :
+    ∀ p ∈ out, ∃ (i : Nat) (x : α × α), r.peaks[i]? = some x ∧ p.mass = toMass x.1 1 ∧ p.intensity = x.2 := by
+  have hall : ∀ p ∈ out, p ∈ r.peaks.map toPeak := by
+    by_cases h2 : r.level = 2
+    · have hd : cfg.deisotope = false := by
+        cases hdd : cfg.deisotope with
+        | false => rfl
+        | true => exact absurd ⟨h2, hdd⟩ hplain
+      have hc : r.centroid = true := by
+        cases hcc : r.centroid with
+        | true => rfl
+        | false => rw [(process_panics_iff cfg r).mpr ⟨h2, hcc⟩] at h; cases h
+      obtain ⟨kept, dropped, out', ho, hperm, hok, _, _, _⟩ := process_nodeiso cfg r h2 hc hd
+      rw [ho] at h
+      simp only [Option.some.injEq, Prod.mk.injEq] at h
+      obtain ⟨rfl, _⟩ := h
+      intro p hp
+      exact hperm.symm.subset (List.mem_append_left _ (hok.subset hp))
+    · obtain ⟨out', ho, hperm, _, _⟩ := process_ms1 cfg r h2
+      rw [ho] at h
+      simp only [Option.some.injEq, Prod.mk.injEq] at h
+      obtain ⟨rfl, _⟩ := h
+      intro p hp
+      exact hperm.subset hp
+  intro p hp
+  obtain ⟨x, hx, rfl⟩ := List.mem_map.mp (hall p hp)
+  obtain ⟨i, hi⟩ := List.mem_iff_getElem?.mp hx
+  exact ⟨i, x, hi, rfl, rfl⟩
+
+example : ∃ out t, process (cfgZ false) rawZ = some (out, t) ∧ ∀ p ∈ out, ∃ (i : Nat) (x : Int × Int),
+    rawZ.peaks[i]? = some x ∧ p.mass = toMass x.1 1 ∧ p.intensity = x.2 := by
+  obtain ⟨_, _, out, h, _⟩ := process_nodeiso (cfgZ false) rawZ rfl rfl rfl
+  exact ⟨out, _, h, process_derived_plain _ _ _ _ h (by decide)⟩
+#guard process (cfgZ false) rawZ == some ([⟨100, 100000 - 1⟩, ⟨70, 100010 - 1⟩], 170)
+
+/-- **C10.retained_not_in_envelope** (with the mass clause for the deisotope path) — MS2 with deisotoping: every output
+    peak of `process` comes from an entry `d` of the deisotoped spectrum at some index `i` that was NOT assigned to a
+    lighter peak's envelope (`d.envelope = none`); its mass is `(mz_i − PROTON)·z` where `mz_i` is the INPUT m/z at that
+    index and `z` the charge assigned to that entry (1 if none), its intensity the entry's (cumulative) intensity.
+    Consequently no entry with `envelope = some _` is the source of an output peak. -/
+theorem retained_not_in_envelope (cfg : Cfg α) (r : Raw α) (out : List (Peak α)) (t : α)
+    (h : process cfg r = some (out, t)) (h2 : r.level = 2) (hd : cfg.deisotope = true) :
+    ∀ p ∈ out, ∃ (i : Nat) (x : α × α) (d : Deiso α),
+      r.peaks[i]? = some x ∧
+      (deisotope r.peaks (r.charge.getD 3) (Num.ofNat 10) cfg.minDeisoMz)[i]? = some d ∧
+      d.envelope = none ∧ p.mass = toMass x.1 (d.charge.getD 1) ∧ p.intensity = d.intensity := by
+  have hc : r.centroid = true := by
+    cases hcc : r.centroid with
+    | true => rfl
+    | false => rw [(process_panics_iff cfg r).mpr ⟨h2, hcc⟩] at h; cases h
+  obtain ⟨R, out', ho, hR, _, hout, _, _⟩ := process_deiso cfg r h2 hc hd
+  rw [ho] at h
+  simp only [Option.some.injEq, Prod.mk.injEq] at h
+  obtain ⟨rfl, _⟩ := h
+  intro p hp
+  obtain ⟨d, hdm, rfl⟩ := List.mem_map.mp (hout.subset hp)
+  have hdR : d ∈ R := List.mem_of_mem_take hdm
+  have hdf := hR.subset hdR
+  rw [List.mem_filter] at hdf
+  obtain ⟨i, hi⟩ := List.mem_iff_getElem?.mp hdf.1
+  obtain ⟨x, hx, hmz⟩ := (deisotope_shape r.peaks (r.charge.getD 3) (Num.ofNat 10) cfg.minDeisoMz).2 i d hi
+  refine ⟨i, x, d, hx, hi, ?_, ?_, rfl⟩
+  · simpa using hdf.2
+  · simp [deisoToPeak, hmz]
+
+-- the merged parent of `inpZ` (index 1, envelope-free, charge 2, cumulative intensity 245) is an output peak
+example : ∃ out t, process (cfgZ true) rawZ = some (out, t) ∧ (deisotope rawZ.peaks 2 10 0)[1]? = some ⟨100000, 245, some 2, none⟩ :=
+  ⟨_, _, by simp [process, processMs2, rawZ, cfgZ]; exact ⟨rfl, rfl⟩, by decide +kernel⟩
+#guard process (cfgZ true) rawZ == some ([⟨7, 98999⟩, ⟨245, (100000 - 1) * 2⟩], 252)
+
+end derived
+
+/-! ## the executable spec accepts the model (`model_meets_spec`) -/
+
+section msub
+variable {γ : Type}
+
+theorem eraseOne_of_mem (eq : γ → γ → Bool) (heq : ∀ x y, eq x y = true ↔ x = y) (x : γ) :
+    ∀ l : List γ, x ∈ l → ∃ l', eraseOne eq x l = some l' ∧ l.Perm (x :: l') := by
+  intro l
+  induction l with
+  | nil => intro h; cases h
+  | cons y ys ih =>
+    intro h
+    unfold eraseOne
+    by_cases hxy : eq x y = true
+    · rw [if_pos hxy]
+      have := (heq x y).mp hxy
+      subst this
+      exact ⟨ys, rfl, List.Perm.refl _⟩
+    · rw [if_neg hxy]
+      have hx : x ∈ ys := by
+        rcases List.mem_cons.mp h with h | h
+        · exact absurd ((heq x y).mpr h) hxy
+        · exact h
+      obtain ⟨l', hl', hp⟩ := ih hx
+      refine ⟨y :: l', by rw [hl']; rfl, ?_⟩
+      exact (List.Perm.cons y hp).trans (List.Perm.swap x y l')
+
+/-- multiset difference succeeds on a sub-multiset and returns (a permutation of) the rest -/
+theorem msub_of_perm (eq : γ → γ → Bool) (heq : ∀ x y, eq x y = true ↔ x = y) :
+    ∀ (small big rest : List γ), big.Perm (small ++ rest) → ∃ rest', msub eq big small = some rest' ∧ rest'.Perm rest := by
+  intro small
+  induction small with
+  | nil => intro big rest h; exact ⟨big, rfl, h⟩
+  | cons x xs ih =>
+    intro big rest h
+    have hx : x ∈ big := h.symm.subset (by simp)
+    obtain ⟨big', hb, hp⟩ := eraseOne_of_mem eq heq x big hx
+    have h' : big'.Perm (xs ++ rest) := (hp.symm.trans h).cons_inv
+    obtain ⟨rest', hr, hpr⟩ := ih big' rest h'
+    refine ⟨rest', ?_, hpr⟩
+    unfold msub
+    rw [hb]
+    exact hr
+
+end msub
+
+section meets
+variable {α : Type} [LinearOrder α] [Num α] [LawfulNum α]
+
+theorem teq_iff (a b : α) : teq a b = true ↔ a = b := by
+  unfold teq
+  simp only [LawfulNum.tltB_eq, Bool.and_eq_true, Bool.not_eq_true', decide_eq_false_iff_not, not_lt]
+  exact ⟨fun h => le_antisymm h.2 h.1, fun h => ⟨le_of_eq h.symm, le_of_eq h⟩⟩
+
+theorem peakEq_iff (a b : Peak α) : peakEq a b = true ↔ a = b := by
+  unfold peakEq
+  rw [Bool.and_eq_true, teq_iff, teq_iff]
+  cases a; cases b
+  simp
+
+theorem sortedByMass_of_pairwise : ∀ (l : List (Peak α)), l.Pairwise (fun a b => a.mass ≤ b.mass) → sortedByMass l = true
+  | [], _ => rfl
+  | [_], _ => rfl
+  | a :: b :: rest, h => by
+    unfold sortedByMass
+    rw [List.pairwise_cons] at h
+    rw [Bool.and_eq_true]
+    exact ⟨(massLe_iff a b).mpr (h.1 b (by simp)), sortedByMass_of_pairwise (b :: rest) h.2⟩
+
+theorem specTic_self (out : List (Peak α)) : specTic out (tic out) = true := by
+  unfold specTic; exact (teq_iff _ _).mpr rfl
+
+theorem specNoDeiso_ok (k : Nat) (inp : List (α × α)) (out kept dropped : List (Peak α))
+    (hperm : (inp.map toPeak).Perm (kept ++ dropped)) (hout : out.Perm kept)
+    (hsorted : out.Pairwise (fun a b => a.mass ≤ b.mass)) (hlen : kept.length = min inp.length k)
+    (htop : ∀ d ∈ dropped, ∀ x ∈ kept, peakLt x d = false) :
+    specNoDeiso k inp out = "ok" := by
+  have h1 := sortedByMass_of_pairwise out hsorted
+  have h2 : out.length = min inp.length k := by rw [hout.length_eq, hlen]
+  obtain ⟨rest, hr, hpr⟩ := msub_of_perm peakEq peakEq_iff out (inp.map toPeak) dropped
+    (hperm.trans (List.Perm.append_right _ hout.symm))
+  have h3 : rest.all (fun d => out.all (fun x => !peakLt x d)) = true := by
+    rw [List.all_eq_true]
+    intro d hd
+    rw [List.all_eq_true]
+    intro x hx
+    rw [htop d (hpr.subset hd) x (hout.subset hx)]
+    rfl
+  unfold specNoDeiso
+  simp only [h1, h2, hr, h3, Bool.not_true, Bool.false_eq_true, ↓reduceIte, bne_self_eq_false]
+
+theorem specMs1_ok (inp : List (α × α)) (out : List (Peak α)) (hperm : out.Perm (inp.map toPeak))
+    (hsorted : out.Pairwise (fun a b => a.mass ≤ b.mass)) : specMs1 inp out = "ok" := by
+  have h1 := sortedByMass_of_pairwise out hsorted
+  have h2 : out.length = inp.length := by simpa using hperm.length_eq
+  obtain ⟨rest, hr, hpr⟩ := msub_of_perm peakEq peakEq_iff out (inp.map toPeak) []
+    (by simpa using hperm.symm)
+  have : rest = [] := List.perm_nil.mp hpr
+  subst this
+  unfold specMs1
+  simp only [h1, h2, hr, Bool.not_true, Bool.false_eq_true, ↓reduceIte, bne_self_eq_false]
+
+theorem deisoKeyEq_iff (a b : Deiso α) : deisoKeyEq a b = true ↔ deisoKey a = deisoKey b := by
+  unfold deisoKeyEq deisoKey
+  rw [Bool.and_eq_true, teq_iff, teq_iff]
+  simp
+
+theorem specDeiso_ok (k : Nat) (D : List (Deiso α)) :
+    specDeiso k D ((((retainedSorted D).map deisoToPeak).take k).mergeSort massLe) = "ok" := by
+  generalize hr : retainedSorted D = r
+  generalize hout : ((r.map deisoToPeak).take k).mergeSort massLe = out
+  have hkey : r.Pairwise (fun a b => deisoKey a ≤ deisoKey b) := by
+    rw [← hr]
+    refine (retainedSorted_spec D).2.imp ?_
+    intro a b hab
+    rw [← Bool.not_eq_true, deisoBefore_iff_key, not_lt] at hab
+    exact hab
+  have h1 : sortedByMass out = true := by rw [← hout]; exact sortedByMass_of_pairwise _ (sorted_mergeSort_mass _)
+  have h2 : out.length = min r.length k := by
+    rw [← hout, List.length_mergeSort, List.length_take, List.length_map, Nat.min_comm]
+  have hperm : out.Perm ((r.take k).map deisoToPeak) := by
+    rw [← hout, List.map_take]; exact List.mergeSort_perm _ _
+  unfold specDeiso
+  simp only [hr, h1, h2, Bool.not_true, Bool.false_eq_true, ↓reduceIte, bne_self_eq_false]
+  by_cases hk0 : k = 0
+  · rw [if_pos hk0]
+  · rw [if_neg hk0]
+    cases ht : r[k - 1]? with
+    | none =>
+      have hlen : r.length ≤ k - 1 := by simpa using ht
+      have htake : r.take k = r := List.take_of_length_le (by omega)
+      rw [htake] at hperm
+      obtain ⟨rest, hrest, hpr⟩ := msub_of_perm peakEq peakEq_iff out (r.map deisoToPeak) []
+        (by simpa using hperm.symm)
+      have : rest = [] := List.perm_nil.mp hpr
+      subst this
+      simp only [hrest]
+    | some t =>
+      simp only []
+      -- split r at k
+      have hk : k = (k - 1) + 1 := by omega
+      have hT : r.take k = r.take (k - 1) ++ [t] := by
+        rw [hk, List.take_add_one]; simp [ht]
+      have hsplit : r = (r.take (k - 1) ++ [t]) ++ r.drop k := by rw [← hT, List.take_append_drop]
+      have hkey' := hkey
+      rw [hsplit, List.pairwise_append] at hkey'
+      obtain ⟨hpT, _, hcross⟩ := hkey'
+      rw [List.pairwise_append] at hpT
+      have hTle : ∀ e ∈ r.take k, deisoKey e ≤ deisoKey t := by
+        intro e he
+        rw [hT, List.mem_append] at he
+        rcases he with he | he
+        · exact hpT.2.2 e he t (by simp)
+        · simp at he; rw [he]
+      have hXge : ∀ e ∈ r.drop k, deisoKey t ≤ deisoKey e := fun e he => hcross t (by simp) e he
+      -- the filters
+      have hstrict : r.filter (fun e => deisoBefore e t) = (r.take k).filter (fun e => deisoBefore e t) := by
+        conv_lhs => rw [← List.take_append_drop k r]
+        rw [List.filter_append]
+        have : (r.drop k).filter (fun e => deisoBefore e t) = [] := by
+          rw [List.filter_eq_nil_iff]
+          intro e he hb
+          rw [deisoBefore_iff_key] at hb
+          exact absurd hb (not_lt.mpr (hXge e he))
+        rw [this, List.append_nil]
+      have htied : r.filter (fun e => deisoKeyEq e t) =
+          (r.take k).filter (fun e => !deisoBefore e t) ++ (r.drop k).filter (fun e => deisoKeyEq e t) := by
+        conv_lhs => rw [← List.take_append_drop k r]
+        rw [List.filter_append]
+        congr 1
+        apply List.filter_congr
+        intro e he
+        rw [Bool.eq_iff_iff, deisoKeyEq_iff, Bool.not_eq_true', ← Bool.not_eq_true, deisoBefore_iff_key, not_lt]
+        exact ⟨fun h => le_of_eq h.symm, fun h => le_antisymm (hTle e he) h⟩
+      have hTperm : (r.take k).Perm ((r.take k).filter (fun e => deisoBefore e t) ++
+          (r.take k).filter (fun e => !deisoBefore e t)) := (List.filter_append_perm _ _).symm
+      have hout2 : out.Perm (((r.take k).filter (fun e => deisoBefore e t)).map deisoToPeak ++
+          ((r.take k).filter (fun e => !deisoBefore e t)).map deisoToPeak) := by
+        rw [← List.map_append]; exact hperm.trans (hTperm.map _)
+      obtain ⟨rest, hrest, hpr⟩ := msub_of_perm peakEq peakEq_iff _ out _ hout2
+      rw [hstrict, hrest]
+      simp only []
+      obtain ⟨rest2, hrest2, _⟩ := msub_of_perm peakEq peakEq_iff rest
+        ((r.filter (fun e => deisoKeyEq e t)).map deisoToPeak)
+        (((r.drop k).filter (fun e => deisoKeyEq e t)).map deisoToPeak)
+        (by rw [htied, List.map_append]; exact List.Perm.append_right _ hpr.symm)
+      rw [hrest2]
+
+/-- **C10.model_meets_spec_process** — the checker the driver applies to the implementation's `process` reply
+    (`specProcess`: clauses `sorted`, `length`, `derived`, `topk`, `ms1_keeps_all`, `retained_topk`, `tic`) accepts the
+    model's own output, for every configuration and every spectrum: a rejection is about the implementation. -/
+theorem model_meets_spec_process (cfg : Cfg α) (r : Raw α) (out : List (Peak α)) (t : α)
+    (h : process cfg r = some (out, t)) : specProcess cfg r out t = "ok" := by
+  have htic : t = tic out := (process_sorted cfg r out t h).2
+  subst htic
+  have hfin : ∀ s : String, s = "ok" →
+      (if (s != "ok") = true then s else if specTic out (tic out) = true then "ok" else "bad:tic") = "ok" := by
+    intro s hs; subst hs; simp [specTic_self]
+  unfold specProcess
+  apply hfin
+  by_cases h2 : r.level = 2
+  · have hc : r.centroid = true := by
+      cases hcc : r.centroid with
+      | true => rfl
+      | false => rw [(process_panics_iff cfg r).mpr ⟨h2, hcc⟩] at h; cases h
+    rw [if_pos h2]
+    cases hd : cfg.deisotope with
+    | true =>
+      simp only [↓reduceIte]
+      have : out = (((retainedSorted (deisotope r.peaks (r.charge.getD 3) (Num.ofNat 10) cfg.minDeisoMz)).map
+          deisoToPeak).take cfg.takeTopN).mergeSort massLe := by
+        simp [process, processMs2, h2, hc, hd] at h
+        exact h.1.symm
+      rw [this]
+      exact specDeiso_ok _ _
+    | false =>
+      simp only [Bool.false_eq_true, ↓reduceIte]
+      obtain ⟨kept, dropped, out', ho, hperm, hok, hs, hl, htop⟩ := process_nodeiso cfg r h2 hc hd
+      rw [ho] at h
+      simp only [Option.some.injEq, Prod.mk.injEq] at h
+      obtain ⟨rfl, _⟩ := h
+      exact specNoDeiso_ok _ _ _ kept dropped hperm hok hs hl htop
+  · rw [if_neg h2]
+    obtain ⟨out', ho, hperm, hs, _⟩ := process_ms1 cfg r h2
+    rw [ho] at h
+    simp only [Option.some.injEq, Prod.mk.injEq] at h
+    obtain ⟨rfl, _⟩ := h
+    exact specMs1_ok _ _ hperm hs
+
+example : ∃ out t, process (cfgZ true) rawZ = some (out, t) ∧ specProcess (cfgZ true) rawZ out t = "ok" := by
+  have h : ∃ out t, process (cfgZ true) rawZ = some (out, t) :=
+    ⟨_, _, by simp [process, processMs2, rawZ, cfgZ]; exact ⟨rfl, rfl⟩⟩
+  obtain ⟨out, t, h⟩ := h
+  exact ⟨out, t, h, model_meets_spec_process _ _ _ _ h⟩
+#guard specProcess (cfgZ true) rawZ [⟨7, 98999⟩, ⟨245, 199998⟩] 252 == "ok"
+#guard specProcess (cfgZ true) rawZ [⟨7, 98999⟩, ⟨50, 200008⟩] 57 == "bad:retained_topk"   -- an envelope member survived
+#guard specProcess (cfgZ false) rawZ [⟨100, 99999⟩, ⟨70, 100009⟩] 170 == "ok"
+#guard specProcess (cfgZ false) rawZ [⟨50, 100004⟩, ⟨70, 100009⟩] 120 == "bad:topk"
+
+theorem mem_rows {β γ : Type} (n : Nat) (l1 : List β) (l2 : List γ) (i : Nat) (x : β) (d : γ)
+    (h : (i, (x, d)) ∈ (List.range n).zip (l1.zip l2)) : l1[i]? = some x ∧ l2[i]? = some d := by
+  obtain ⟨m, hm⟩ := List.mem_iff_getElem?.mp h
+  rw [List.getElem?_zip_eq_some] at hm
+  obtain ⟨hr, hz⟩ := hm
+  rw [List.getElem?_zip_eq_some] at hz
+  obtain ⟨hlt, hv⟩ := List.getElem?_eq_some_iff.mp hr
+  rw [List.getElem_range] at hv
+  simp only at hv
+  subst hv
+  exact hz
+
+theorem MzAscending_of_check : ∀ (inp : List (α × α)), mzAscending inp = true → MzAscending inp
+  | [], _ => List.Pairwise.nil
+  | [_], _ => by unfold MzAscending; simp
+  | a :: b :: rest, h => by
+    unfold mzAscending at h
+    rw [Bool.and_eq_true, LawfulNum.leB_eq, decide_eq_true_eq] at h
+    have ih : MzAscending (b :: rest) := MzAscending_of_check (b :: rest) h.2
+    unfold MzAscending at ih ⊢
+    rw [List.pairwise_cons] at ih ⊢
+    refine ⟨?_, List.pairwise_cons.mpr ih⟩
+    intro c hc
+    rcases List.mem_cons.mp hc with rfl | hc
+    · exact h.1
+    · exact le_trans h.1 (ih.1 c hc)
+
+/-- **C10.model_meets_spec_deisotope** — the checker the driver applies to the implementation's `deisotope` reply
+    (`specDeisotope`: clauses `length`, `mz_changed`, `envelope_lighter`, `envelope_witness`, `charge_witness`,
+    `protected_region`) accepts the model's own output, for every input (sorted or not), `max_charge`, `ppm`, `min_mz`. -/
+theorem model_meets_spec_deisotope (inp : List (α × α)) (maxz : Nat) (ppm minMz : α) :
+    specDeisotope inp maxz ppm minMz (deisotope inp maxz ppm minMz) = "ok" := by
+  generalize hD : deisotope inp maxz ppm minMz = D
+  have hlen : D.length = inp.length := by rw [← hD]; exact deisotope_length _ _ _ _
+  have hget : ∀ i x d, (i, (x, d)) ∈ (List.range inp.length).zip (inp.zip D) →
+      inp[i]? = some x ∧ (deisotope inp maxz ppm minMz)[i]? = some d := by
+    intro i x d h; rw [hD]; exact mem_rows _ _ _ i x d h
+  have c1 : ((List.range inp.length).zip (inp.zip D)).all (fun (_, (x, d)) => teq x.1 d.mz) = true := by
+    rw [List.all_eq_true]
+    rintro ⟨i, x, d⟩ hm
+    obtain ⟨hx, hd⟩ := hget i x d hm
+    obtain ⟨x', hx', hmz⟩ := (deisotope_shape inp maxz ppm minMz).2 i d hd
+    rw [hx] at hx'; cases hx'
+    exact (teq_iff _ _).mpr hmz.symm
+  have c5 : (mzAscending inp && !((List.range inp.length).zip (inp.zip D)).all (fun (_, (x, d)) =>
+      if Num.ltB x.1 minMz then teq d.intensity x.2 && d.charge.isNone && d.envelope.isNone else true)) = false := by
+    cases hasc : mzAscending inp with
+    | false => rfl
+    | true =>
+      have hs := MzAscending_of_check inp hasc
+      rw [Bool.true_and, Bool.not_eq_false', List.all_eq_true]
+      rintro ⟨i, x, d⟩ hm
+      obtain ⟨hx, hd⟩ := hget i x d hm
+      dsimp only
+      split
+      · next hlt =>
+        rw [LawfulNum.ltB_eq, decide_eq_true_eq] at hlt
+        have := protected_region inp maxz ppm minMz hs i d hd x hx hlt
+        subst this
+        simp [initOf, teq_iff]
+      · rfl
+  have key : ∀ {β : Type} (rows : List β) (f : β → Bool) (a b : String), (∀ r ∈ rows, f r = true) →
+      (if (!rows.all f) = true then a else b) = b := by
+    intro β rows f a b h
+    rw [List.all_eq_true.mpr h]; rfl
+  unfold specDeisotope
+  simp only [hlen, c1, c5, Bool.not_true, Bool.false_eq_true, ↓reduceIte, bne_self_eq_false]
+  refine (key _ _ _ _ ?_).trans ((key _ _ _ _ ?_).trans (key _ _ _ _ ?_))
+  · rintro ⟨i, x, d⟩ hm
+    obtain ⟨hx, hd⟩ := hget i x d hm
+    dsimp only
+    cases he : d.envelope with
+    | none => rfl
+    | some j => exact decide_eq_true (envelope_lighter inp maxz ppm minMz i d hd j he)
+  · rintro ⟨i, x, d⟩ hm
+    obtain ⟨hx, hd⟩ := hget i x d hm
+    dsimp only
+    cases he : d.envelope with
+    | none => rfl
+    | some j =>
+      obtain ⟨z, hz, h1, h2, hw⟩ := envelope_witness inp maxz ppm minMz i d hd j he
+      simp only [hz, Bool.and_eq_true, decide_eq_true_eq]
+      exact ⟨⟨h1, h2⟩, (witness_iff _ _ _ _ _).mpr hw⟩
+  · rintro ⟨p, x, d⟩ hm
+    obtain ⟨hx, hd⟩ := hget p x d hm
+    dsimp only
+    cases he : d.envelope with
+    | some j => rfl
+    | none =>
+      cases hz : d.charge with
+      | none => rfl
+      | some z =>
+        obtain ⟨h1, h2, i, hpi, hw⟩ := charge_witness inp maxz ppm minMz p d hd he z hz
+        simp only [Bool.and_eq_true, decide_eq_true_eq, List.any_eq_true, List.mem_range]
+        refine ⟨⟨h1, h2⟩, i, ?_, hpi, (witness_iff _ _ _ _ _).mpr hw⟩
+        obtain ⟨_, _, _, _, _, hi, _⟩ := hw
+        exact (List.getElem?_eq_some_iff.mp hi).1
+
+example : specDeisotope inpZ 2 10 100006 (deisotope inpZ 2 10 100006) = "ok" := model_meets_spec_deisotope _ _ _ _
+-- and the checker does reject: a protected peak that was merged into / a charge without witness
+#guard specDeisotope inpZ 2 10 100006 (deisotope inpZ 2 10 0) == "bad:protected_region"
+#guard specDeisotope inpZ 2 10 0 ((deisotope inpZ 2 10 0).set 0 ⟨99000, 7, some 1, none⟩) == "bad:charge_witness"
+
+end meets
+
+/-! ## intensity accounting of `deisotope` -/
+
+section accounting
+variable {α : Type} [Num α]
+
+/-- reading after the four assignments of a hit (`j ≠ i`) -/
+theorem get_applyHit (pi : Deiso α) (i j z : Nat) (peaks : Array (Deiso α)) (q : Nat) (hij : j ≠ i) :
+    (applyHit pi i j z peaks)[q]? =
+      if q = i then peaks[i]?.map (fun p => { p with charge := some z, envelope := some j })
+      else if q = j then peaks[j]?.map (fun p => { p with intensity := Num.add p.intensity pi.intensity, charge := some z })
+      else peaks[q]? := by
+  unfold applyHit
+  rw [Array.getElem?_modify]
+  by_cases hqi : q = i
+  · subst hqi
+    rw [if_pos rfl, if_pos rfl, Array.getElem?_modify, if_neg hij]
+  · rw [if_neg (Ne.symm hqi), if_neg hqi, Array.getElem?_modify]
+    by_cases hqj : q = j
+    · subst hqj; simp
+    · rw [if_neg (Ne.symm hqj), if_neg hqj]
+
+/-- intensity stored at position `m` (the neutral element out of range) -/
+def ival (peaks : Array (Deiso α)) (m : Nat) : α :=
+  match peaks[m]? with
+  | some d => d.intensity
+  | none => Num.sumZero
+
+
+theorem ival_some {peaks : Array (Deiso α)} {m : Nat} {d : Deiso α} (h : peaks[m]? = some d) :
+    ival peaks m = d.intensity := by unfold ival; rw [h]
+
+omit [Num α] in
+theorem foldl_congr_mem {β : Type} (f g : α → β → α) (l : List β) (h : ∀ s, ∀ m ∈ l, f s m = g s m) :
+    ∀ a, l.foldl f a = l.foldl g a := by
+  induction l with
+  | nil => intro a; rfl
+  | cons x xs ih =>
+    intro a
+    rw [List.foldl_cons, List.foldl_cons, h a x (by simp)]
+    exact ih (fun s m hm => h s m (List.mem_cons_of_mem _ hm)) _
+
+end accounting
+
+section accounting2
+variable {α : Type} [LinearOrder α] [Num α] [LawfulNum α]
+
+/-- accounting invariant with member bound `b`: every entry's intensity is its own input intensity plus, in order, the
+    (current) intensities of a list of members; every member lies at an index `≥ b`, above the entry, is one of its
+    isotope witnesses, and has been removed by an envelope -/
+def Acc (inp : List (α × α)) (ppm : α) (b : Nat) (peaks : Array (Deiso α)) : Prop :=
+  ∀ (p : Nat) (d : Deiso α), peaks[p]? = some d → ∃ (x : α × α) (ms : List Nat), inp[p]? = some x ∧
+    (∀ m ∈ ms, b ≤ m ∧ p < m ∧ (∃ z, Witness inp ppm p m z) ∧ ∃ dm, peaks[m]? = some dm ∧ dm.envelope ≠ none) ∧
+    d.intensity = ms.foldl (fun s m => Num.add s (ival peaks m)) x.2
+
+theorem Acc_applyHit (inp : List (α × α)) (maxz : Nat) (ppm minMz : α) (i j z : Nat) (peaks : Array (Deiso α))
+    (pi : Deiso α) (hc : HitCtx inp.toArray maxz ppm minMz i j z) (hpi : peaks[i]? = some pi)
+    (h : Acc inp ppm i peaks) : Acc inp ppm i (applyHit pi i j z peaks) := by
+  have hji : j < i := hit_lt hc
+  have hne : j ≠ i := Nat.ne_of_lt hji
+  have hw := (hit_witness hc).1
+  have hrd := fun q => get_applyHit pi i j z peaks q hne
+  -- intensities away from j are unchanged
+  have hival : ∀ q, q ≠ j → ival (applyHit pi i j z peaks) q = ival peaks q := by
+    intro q hq
+    unfold ival
+    rw [hrd q]
+    by_cases hqi : q = i
+    · subst hqi; rw [if_pos rfl, hpi]; rfl
+    · rw [if_neg hqi, if_neg hq]
+  -- members stay removed
+  have hmem : ∀ (m : Nat) (dm : Deiso α), peaks[m]? = some dm → dm.envelope ≠ none →
+      ∃ dm' : Deiso α, (applyHit pi i j z peaks)[m]? = some dm' ∧ dm'.envelope ≠ none := by
+    intro m dm hm he
+    rw [hrd m]
+    by_cases hmi : m = i
+    · subst hmi; rw [if_pos rfl, hm]; exact ⟨_, rfl, by simp⟩
+    · rw [if_neg hmi]
+      by_cases hmj : m = j
+      · subst hmj; rw [if_pos rfl, hm]; exact ⟨_, rfl, he⟩
+      · rw [if_neg hmj]; exact ⟨dm, hm, he⟩
+  intro p d' hd'
+  rw [hrd p] at hd'
+  by_cases hp_i : p = i
+  · -- p = i: intensity unchanged, same members
+    subst hp_i
+    rw [if_pos rfl, hpi] at hd'
+    simp only [Option.map_some, Option.some.injEq] at hd'
+    subst hd'
+    obtain ⟨x, ms, hx, hms, hint⟩ := h p pi hpi
+    refine ⟨x, ms, hx, ?_, ?_⟩
+    · intro m hm
+      obtain ⟨h1, h2, h3, dm, hdm, hde⟩ := hms m hm
+      exact ⟨h1, h2, h3, hmem m dm hdm hde⟩
+    · show pi.intensity = _
+      rw [hint]
+      apply foldl_congr_mem
+      intro s m hm
+      rw [hival m (by have := (hms m hm).1; omega)]
+  · rw [if_neg hp_i] at hd'
+    by_cases hp_j : p = j
+    · -- p = j: one more member, i
+      subst hp_j
+      rw [if_pos rfl] at hd'
+      cases hdj : peaks[p]? with
+      | none => rw [hdj] at hd'; cases hd'
+      | some dj =>
+        rw [hdj] at hd'
+        simp only [Option.map_some, Option.some.injEq] at hd'
+        subst hd'
+        obtain ⟨x, ms, hx, hms, hint⟩ := h p dj hdj
+        refine ⟨x, ms ++ [i], hx, ?_, ?_⟩
+        · intro m hm
+          rcases List.mem_append.mp hm with hm | hm
+          · obtain ⟨h1, h2, h3, dm, hdm, hde⟩ := hms m hm
+            exact ⟨h1, h2, h3, hmem m dm hdm hde⟩
+          · simp only [List.mem_singleton] at hm
+            subst hm
+            refine ⟨Nat.le_refl _, hji, ⟨z, hw⟩, ?_⟩
+            rw [hrd m, if_pos rfl, hpi]
+            exact ⟨_, rfl, by simp⟩
+        · show Num.add dj.intensity pi.intensity = _
+          rw [List.foldl_append, List.foldl_cons, List.foldl_nil, hival i (Ne.symm hne), ival_some hpi, hint]
+          congr 1
+          apply foldl_congr_mem
+          intro s m hm
+          rw [hival m (by have := (hms m hm).1; omega)]
+    · -- elsewhere
+      rw [if_neg hp_j] at hd'
+      obtain ⟨x, ms, hx, hms, hint⟩ := h p d' hd'
+      refine ⟨x, ms, hx, ?_, ?_⟩
+      · intro m hm
+        obtain ⟨h1, h2, h3, dm, hdm, hde⟩ := hms m hm
+        exact ⟨h1, h2, h3, hmem m dm hdm hde⟩
+      · rw [hint]
+        apply foldl_congr_mem
+        intro s m hm
+        rw [hival m (by have := (hms m hm).1; omega)]
+
+
+omit [LinearOrder α] [LawfulNum α] in
+theorem chargeStep_inv (P : Array (Deiso α) → Prop) (δ tol ii ij : α) (i j z : Nat)
+    (hs : isoHit δ tol ii ij z = true → ∀ (peaks : Array (Deiso α)) (pi : Deiso α), peaks[i]? = some pi → P peaks →
+      P (applyHit pi i j z peaks)) :
+    ∀ peaks : Array (Deiso α), P peaks → P (chargeStep δ tol ii ij i j peaks z) := by
+  intro peaks h
+  unfold chargeStep
+  split
+  · next hit =>
+    split
+    · exact h
+    · next pi hpi =>
+      split
+      · exact h
+      · exact hs hit peaks pi hpi h
+  · exact h
+
+omit [LinearOrder α] [LawfulNum α] in
+theorem foldl_chargeStep_inv (P : Array (Deiso α) → Prop) (δ tol ii ij : α) (i j : Nat) (zs : List Nat)
+    (hs : ∀ z ∈ zs, isoHit δ tol ii ij z = true → ∀ (peaks : Array (Deiso α)) (pi : Deiso α), peaks[i]? = some pi →
+      P peaks → P (applyHit pi i j z peaks)) :
+    ∀ peaks : Array (Deiso α), P peaks → P (zs.foldl (chargeStep δ tol ii ij i j) peaks) := by
+  induction zs with
+  | nil => intro peaks h; exact h
+  | cons z zs ih =>
+    intro peaks h
+    rw [List.foldl_cons]
+    exact ih (fun z' hz' => hs z' (List.mem_cons_of_mem _ hz')) _
+      (chargeStep_inv P δ tol ii ij i j z (hs z (List.mem_cons_self ..)) peaks h)
+
+omit [LinearOrder α] [LawfulNum α] in
+theorem inner_inv (P : Array (Deiso α) → Prop) (inp : Array (α × α)) (maxz : Nat) (ppm minMz : α) (i : Nat)
+    (hs : ∀ j z, HitCtx inp maxz ppm minMz i j z → ∀ (peaks : Array (Deiso α)) (pi : Deiso α), peaks[i]? = some pi →
+      P peaks → P (applyHit pi i j z peaks)) (fuel : Nat) :
+    ∀ (j : Nat) (peaks : Array (Deiso α)), j ≤ i - 1 → P peaks → P (inner inp maxz ppm minMz i j fuel peaks) := by
+  induction fuel with
+  | zero => intro j peaks _ h; exact h
+  | succ f ih =>
+    intro j peaks hji h
+    unfold inner
+    split
+    · next mzi inti mzj intj hi hj =>
+      split
+      · next hw =>
+        have hfold := foldl_chargeStep_inv P (Num.sub mzi mzj) (ppmDelta mzi ppm) inti intj i j (charges maxz)
+          (fun z hz hit => hs j z ⟨mzi, inti, mzj, intj, hi, hj, hji, hw, hz, hit⟩) peaks h
+        simp only []
+        split
+        · exact hfold
+        · exact ih (j - 1) _ (by omega) hfold
+      · exact h
+    · exact h
+
+omit [LawfulNum α] in
+theorem Acc_mono (inp : List (α × α)) (ppm : α) (b b' : Nat) (hb : b' ≤ b) (peaks : Array (Deiso α))
+    (h : Acc inp ppm b peaks) : Acc inp ppm b' peaks := by
+  intro p d hd
+  obtain ⟨x, ms, hx, hms, hint⟩ := h p d hd
+  exact ⟨x, ms, hx, fun m hm => ⟨Nat.le_trans hb (hms m hm).1, (hms m hm).2⟩, hint⟩
+
+theorem Acc_outer (inp : List (α × α)) (maxz : Nat) (ppm minMz : α) (n : Nat) :
+    ∀ peaks : Array (Deiso α), Acc inp ppm n peaks → Acc inp ppm 0 (outer inp.toArray maxz ppm minMz n peaks) := by
+  induction n with
+  | zero => intro peaks h; exact h
+  | succ n ih =>
+    intro peaks h
+    unfold outer
+    apply ih
+    exact inner_inv (Acc inp ppm n) inp.toArray maxz ppm minMz n
+      (fun j z hc peaks pi hpi hP => Acc_applyHit inp maxz ppm minMz n j z peaks pi hc hpi hP)
+      (n + 1) (n - 1) peaks (Nat.le_refl _) (Acc_mono inp ppm (n + 1) n (Nat.le_succ n) peaks h)
+
+/-- intensity of entry `m` of a deisotoped spectrum (the neutral element out of range) -/
+def intensityAt (D : List (Deiso α)) (m : Nat) : α := ival D.toArray m
+
+/-- **C10.retained_intensity** — intensity accounting of `deisotope`, for every input, `max_charge`, `ppm`, `min_mz`:
+    the intensity of every entry `p` of the result is its own input intensity plus, added left to right in the order the
+    code merges them, the (cumulative, final) intensities of a list of envelope members `ms`; each member lies above `p`,
+    is an isotope `Witness` of `p` at some charge, and was removed by an envelope (`envelope ≠ none`, so it is not an
+    output peak of `process`). In particular a retained peak's intensity is the sum over the members merged into it. -/
+theorem retained_intensity (inp : List (α × α)) (maxz : Nat) (ppm minMz : α) :
+    ∀ (p : Nat) (d : Deiso α), (deisotope inp maxz ppm minMz)[p]? = some d → ∃ (x : α × α) (ms : List Nat),
+      inp[p]? = some x ∧
+      (∀ m ∈ ms, p < m ∧ (∃ z, Witness inp ppm p m z) ∧
+        ∃ dm, (deisotope inp maxz ppm minMz)[m]? = some dm ∧ dm.envelope ≠ none) ∧
+      d.intensity = ms.foldl (fun s m => Num.add s (intensityAt (deisotope inp maxz ppm minMz) m)) x.2 := by
+  have hinit : Acc inp ppm inp.length (initPeaks inp.toArray) := by
+    intro p d hd
+    unfold initPeaks at hd
+    rw [Array.getElem?_map] at hd
+    cases hx : inp.toArray[p]? with
+    | none => simp [hx] at hd
+    | some x =>
+      simp only [hx, Option.map_some, Option.some.injEq] at hd
+      subst hd
+      exact ⟨x, [], by simpa using hx, by simp, rfl⟩
+  have hfin := Acc_outer inp maxz ppm minMz inp.length _ hinit
+  intro p d hd
+  unfold deisotope at hd
+  rw [Array.getElem?_toList] at hd
+  obtain ⟨x, ms, hx, hms, hint⟩ := hfin p d hd
+  refine ⟨x, ms, hx, ?_, ?_⟩
+  · intro m hm
+    obtain ⟨_, h2, h3, dm, hdm, hde⟩ := hms m hm
+    refine ⟨h2, h3, dm, ?_, hde⟩
+    unfold deisotope
+    rw [Array.getElem?_toList]; exact hdm
+  · rw [hint]
+    unfold intensityAt deisotope
+    simp
+
+-- entry 1 of the example: 245 = 100 + 95 (member 3, itself 70 + 25) + 50 (member 2)
+example : (deisotope inpZ 2 10 0)[1]? = some ⟨100000, 245, some 2, none⟩ := by decide +kernel
+#guard (deisotope inpZ 2 10 0).map (·.intensity) == [7, 100 + (70 + (20 + 5)) + 50, 50, 70 + (20 + 5), 20 + 5, 5]
+
+end accounting2
+
+section accounting3
+variable {α : Type} [LinearOrder α] [Num α] [LawfulNum α]
+
+/-- **C10.process_retained_intensity** — MS2 with deisotoping: the intensity of every output peak of `process` is the input
+    intensity of the (envelope-free) peak it comes from plus the intensities of the envelope members merged into it
+    (each an isotope witness above it that was itself removed), and its mass is `(mz − PROTON)·(assigned charge or 1)`. -/
+theorem process_retained_intensity (cfg : Cfg α) (r : Raw α) (out : List (Peak α)) (t : α)
+    (h : process cfg r = some (out, t)) (h2 : r.level = 2) (hd : cfg.deisotope = true) :
+    ∀ p ∈ out, ∃ (i : Nat) (x : α × α) (d : Deiso α) (ms : List Nat),
+      r.peaks[i]? = some x ∧
+      (deisotope r.peaks (r.charge.getD 3) (Num.ofNat 10) cfg.minDeisoMz)[i]? = some d ∧ d.envelope = none ∧
+      p.mass = toMass x.1 (d.charge.getD 1) ∧
+      p.intensity = ms.foldl (fun s m => Num.add s
+        (intensityAt (deisotope r.peaks (r.charge.getD 3) (Num.ofNat 10) cfg.minDeisoMz) m)) x.2 ∧
+      (∀ m ∈ ms, i < m ∧ (∃ z, Witness r.peaks (Num.ofNat 10) i m z) ∧
+        ∃ dm, (deisotope r.peaks (r.charge.getD 3) (Num.ofNat 10) cfg.minDeisoMz)[m]? = some dm ∧ dm.envelope ≠ none) := by
+  intro p hp
+  obtain ⟨i, x, d, hx, hD, he, hm, hi⟩ := retained_not_in_envelope cfg r out t h h2 hd p hp
+  obtain ⟨x', ms, hx', hms, hint⟩ := retained_intensity r.peaks (r.charge.getD 3) (Num.ofNat 10) cfg.minDeisoMz i d hD
+  rw [hx] at hx'; cases hx'
+  exact ⟨i, x, d, ms, hx, hD, he, hm, hi.trans hint, hms⟩
+
+example : ∃ out t, process (cfgZ true) rawZ = some (out, t) ∧ out ≠ [] := by
+  have h : ∃ out t, process (cfgZ true) rawZ = some (out, t) :=
+    ⟨_, _, by simp [process, processMs2, rawZ, cfgZ]; exact ⟨rfl, rfl⟩⟩
+  obtain ⟨out, t, h⟩ := h
+  refine ⟨out, t, h, ?_⟩
+  intro hnil
+  subst hnil
+  have := (process_deiso (cfgZ true) rawZ rfl rfl rfl)
+  obtain ⟨R, out', ho, hR, _, _, _, hl⟩ := this
+  rw [ho] at h
+  simp only [Option.some.injEq, Prod.mk.injEq] at h
+  obtain ⟨rfl, _⟩ := h
+  have hlen := hR.length_eq
+  have : ((deisotope rawZ.peaks (rawZ.charge.getD 3) (Num.ofNat 10) (cfgZ true).minDeisoMz).filter
+      (fun d => d.envelope.isNone)).length = 2 := by decide +kernel
+  rw [this] at hlen
+  simp [hlen, cfgZ] at hl
+#guard process (cfgZ true) rawZ == some ([⟨7, 98999⟩, ⟨100 + (70 + (20 + 5)) + 50, 199998⟩], 252)
+
+end accounting3
 end Sage.C10
